@@ -354,7 +354,15 @@ rp_alloc_cb(void *drv, void **m, size_t n)
     struct rp_h *h = drv;
     long idx = (long)h->alloc_calls++;
     if (idx == h->fail_alloc_at) {
-        *m = NULL;
+        /* what a failing allocator leaves in the out-parameter is its own business (NULL, or the candidate it
+         * looked at before it gave up): nobody may use it */
+        static unsigned char offlimits[32];
+        static int poisoned;
+        if (!poisoned) {
+            vh_poison(offlimits, sizeof offlimits);
+            poisoned = 1;
+        }
+        *m = ((idx + (long)(vh_unit_salt & 1u)) & 1) ? NULL : (void *)(offlimits + 8);
         return -ENOMEM;
     }
     if (h->nblk >= RP_MAXBLOCKS) {
